@@ -57,6 +57,31 @@ func splitTop(s string) []string {
 	return append(out, strings.TrimSpace(s[start:]))
 }
 
+// createOpts: the option clause of a CREATE TABLE statement, "W" (WITHOUT ROWID) and "S" (STRICT) in
+// the order written, "-" when there is none.
+func createOpts(cmd string) string {
+	i := strings.LastIndexByte(cmd, ')')
+	if i < 0 {
+		return "?"
+	}
+	var o string
+	for _, f := range strings.Split(strings.ToUpper(cmd[i+1:]), ",") {
+		switch strings.Join(strings.Fields(f), " ") {
+		case "WITHOUT ROWID":
+			o += "W"
+		case "STRICT":
+			o += "S"
+		case "":
+		default:
+			o += "?"
+		}
+	}
+	if o == "" {
+		return "-"
+	}
+	return o
+}
+
 // skeleton renders one planned statement the way the model driver prints an abstract one.
 func skeleton(cmd string) string {
 	cmd = strings.Join(strings.Fields(cmd), " ")
@@ -67,7 +92,7 @@ func skeleton(cmd string) string {
 		return "PF 1"
 	}
 	if m := reCreateTable.FindStringSubmatch(cmd); m != nil {
-		return "CT " + hx(m[1])
+		return "CT " + hx(m[1]) + " " + createOpts(cmd)
 	}
 	if m := reDropTable.FindStringSubmatch(cmd); m != nil {
 		return "DT " + hx(m[1])
@@ -147,9 +172,10 @@ func (p pcol) build(t *schema.Table) *schema.Column {
 }
 
 type ptable struct {
-	name string
-	cols []pcol
-	idx  []string
+	name            string
+	cols            []pcol
+	idx             []string
+	strict, worowid bool
 }
 
 func (p ptable) build() *schema.Table {
@@ -159,6 +185,13 @@ func (p ptable) build() *schema.Table {
 	}
 	for _, n := range p.idx {
 		t.Indexes = append(t.Indexes, &schema.Index{Name: n, Table: t, Parts: []*schema.IndexPart{{C: t.Columns[0]}}})
+	}
+	// the order of the attributes is not the order of the clause
+	if p.strict {
+		t.Attrs = append(t.Attrs, &sqlite.Strict{})
+	}
+	if p.worowid {
+		t.Attrs = append(t.Attrs, &sqlite.WithoutRowID{})
 	}
 	return t
 }
@@ -212,7 +245,9 @@ func atoms() []atom {
 	}
 	add("addidx", func(t *schema.Table) schema.Change { return &schema.AddIndex{I: ix(t, "i_new")} })
 	add("dropidx", func(t *schema.Table) schema.Change { return &schema.DropIndex{I: ix(t, "i_old")} })
-	add("dropidx-auto", func(t *schema.Table) schema.Change { return &schema.DropIndex{I: ix(t, "sqlite_autoindex_"+t.Name+"_1")} })
+	add("dropidx-auto", func(t *schema.Table) schema.Change {
+		return &schema.DropIndex{I: ix(t, "sqlite_autoindex_"+t.Name+"_1")}
+	})
 	add("renidx", func(t *schema.Table) schema.Change {
 		return &schema.RenameIndex{From: ix(t, "i_old"), To: ix(t, "i_ren")}
 	})
@@ -233,6 +268,9 @@ func planTables() []ptable {
 		{name: "u", cols: []pcol{{name: "b", dk: 1}, {name: "a", notnull: true, dk: 3}}},
 		{name: "w", cols: []pcol{{name: "a", notnull: true, dk: 1}}, idx: []string{"i_w1", "i_w2"}},
 		{name: "v", cols: []pcol{{name: "g", gen: true, stored: true}, {name: "zz", notnull: true, dk: 2}, {name: "a"}}},
+		{name: "ts", cols: []pcol{{name: "a"}, {name: "b", notnull: true, dk: 1}}, strict: true},
+		{name: "tw", cols: []pcol{{name: "a", notnull: true}, {name: "b"}}, worowid: true, idx: []string{"i_tw"}},
+		{name: "tsw", cols: []pcol{{name: "a", notnull: true}, {name: "g", gen: true}, {name: "b", dk: 1}}, strict: true, worowid: true},
 	}
 }
 
